@@ -151,6 +151,10 @@ Proof.
     + apply IH.
   - apply qsum_compat; exact H.
   - apply Qopp_comp. apply qmaxl1_compat; exact H.
+  - apply qprod_compat. eapply Forall2_map2; [|exact H]. intros x y E. cbn beta.
+    assert (Em : Qmin x 1 == Qmin y 1).
+    { destruct (Qmin_spec x 1) as [[H1 ->]|[H1 ->]]; destruct (Qmin_spec y 1) as [[H2 ->]|[H2 ->]]; lra. }
+    rewrite Em, E. reflexivity.
 Qed.
 
 (* ---- sim_npc: the observed row counts itself, so the global p-value is at least 1/(reps+1), never 0
